@@ -331,6 +331,10 @@ class DataFile:
       LOGGER.error("Invalid TNB field value: %s", self.gsi.TNB)
       self.tti_count = sys.maxsize
 
+    if self.tti_count < 1:
+      LOGGER.error("Invalid TNB field value: %s", self.gsi.TNB)
+      self.tti_count = sys.maxsize
+
     self.language = _LC_BCP47_MAP.get(self.gsi.LC)
     if self.language is None:
       LOGGER.warning("Unknown LC value: %s, defaulting to 'unspecified''", self.gsi.LC)
@@ -373,6 +377,10 @@ class DataFile:
         self.max_row_count = DEFAULT_TELETEXT_ROWS
     else:
       self.max_row_count = max_row_count
+
+    if self.max_row_count < 1:
+      LOGGER.error("Invalid maximum number of rows: %s", self.max_row_count)
+      self.max_row_count = DEFAULT_TELETEXT_ROWS
 
     # p_element for use across cumulative subtitles 
     self.cur_p_element = None
